@@ -1104,8 +1104,7 @@ def selftest(tier):
         STATS["hang_detector_error"] = repr(e)[:500]
         detector_ok = "hang-detector-detects"           # cannot be met: reported as a machinery error by the runner
     cases = [
-        ("hang/field/name/q-open/plain/cl/n64-150", {"h": b"x", "u": 0, "n": 1}, detector_ok),
-        ("hang/field/filename/q-close/plain/chunked/n64-150", {"h": b";", "u": 0, "n": 0}, "ok"),
+        ("hang/field/filename/q-close/plain/chunked/n64-150", {"h": b";", "u": 0, "n": 1}, detector_ok),
         ("hang/field/name/bare/marks/cl/n96", {"h": b"z", "u": 0, "n": 0}, "ok"),
         ("hang/field/name/q-open/plain/cl/n64-150", {"h": b"x", "u": 1, "n": 0}, "rejected"),
         ("hang/ctype/quoted/ct/forms/n60-150", {"o": 0, "m": 1, "u": 3, "n": 1}, "ok"),
